@@ -1190,7 +1190,7 @@ pub mod verif_session_end {
     }
 
     #[derive(Debug, Default)]
-    struct Recorder(Mutex<Vec<Update>>);
+    pub(super) struct Recorder(pub(super) Mutex<Vec<Update>>);
 
     #[async_trait::async_trait]
     impl DirectUpdate for Recorder {
@@ -1203,7 +1203,7 @@ pub mod verif_session_end {
 
     /// Subscribes a link that records into `target` to `gate`, handling the
     /// one Subscribe command on the spot.
-    async fn subscribe(
+    pub(super) async fn subscribe(
         gate: &Gate,
         agent: &mut GateAgent,
         target: &Arc<dyn AnyDirectUpdate>,
@@ -1429,6 +1429,109 @@ pub mod verif_session_end {
             updates,
             live,
             commands,
+        }
+    }
+}
+
+/// Verification hook (feature `verif-hooks`), add-only: the REAL
+/// `handle_connection` - routecore's `Session` over a real TCP stream, the
+/// writer task, `Processor::process` - started the way `accept_config` of
+/// unit.rs starts it (a clone of the unit's gate, a fresh command channel,
+/// the unit's `live_sessions`), with a recording direct-update link on the
+/// unit's gate and a task that processes the unit's gate until it is
+/// terminated, as the unit's own loop does. Lets an external harness see
+/// what a session that ends on the wire (close, reset, truncated frame,
+/// garbage, unit shutdown) leaves behind.
+#[cfg(feature = "verif-hooks")]
+pub mod verif_connection {
+    use super::verif_session_end::{subscribe, Recorder};
+    use super::*;
+    use crate::comms::{AnyDirectUpdate, GateAgent, Link};
+    use std::net::IpAddr;
+
+    pub struct Fixture {
+        recorder: Arc<Recorder>,
+        _target: Arc<dyn AnyDirectUpdate>,
+        _link: Link,
+        agent: GateAgent,
+        live_sessions: Arc<Mutex<super::super::unit::LiveSessions>>,
+        connection: tokio::task::JoinHandle<()>,
+        unit: tokio::task::JoinHandle<()>,
+    }
+
+    /// `stream`: the accepted end of the connection; the peer is configured
+    /// by its exact address, any AS.
+    pub async fn start(
+        stream: TcpStream,
+        peer: IpAddr,
+        ingress_id: ingress::IngressId,
+    ) -> Fixture {
+        let (gate, mut agent) = Gate::new(0);
+        let recorder = Arc::new(Recorder::default());
+        let target: Arc<dyn AnyDirectUpdate> = recorder.clone();
+        let link = subscribe(&gate, &mut agent, &target).await;
+        let unit_cfg: BgpTcpIn = toml::from_str(&format!(
+            "listen = \"127.0.0.1:0\"\nmy_asn = 65000\nmy_bgp_id = [1, 1, 1, 1]\n[peers.\"{peer}\"]\nname = \"verif\"\nremote_asn = []\n"
+        ))
+        .expect("unit config");
+        let (remote_net, peer_config) = unit_cfg
+            .peer_configs
+            .get(peer)
+            .map(|(k, c)| (k, c.clone()))
+            .expect("peer is configured");
+        let live_sessions =
+            Arc::new(Mutex::new(std::collections::HashMap::new()));
+        let (cmds_tx, cmds_rx) = mpsc::channel(10 * 10);
+        let connection = tokio::spawn(handle_connection(
+            None,
+            gate.clone(),
+            unit_cfg.clone(),
+            stream,
+            CombinedConfig::new(unit_cfg.clone(), peer_config, remote_net),
+            cmds_tx,
+            cmds_rx,
+            Default::default(),
+            live_sessions.clone(),
+            Default::default(),
+            ingress_id,
+        ));
+        // the unit's own loop: handle gate commands until terminated, then
+        // the unit (and its gate) is gone
+        let unit = tokio::spawn(async move {
+            while gate.process().await.is_ok() {}
+            drop(gate);
+        });
+        Fixture {
+            recorder,
+            _target: target,
+            _link: link,
+            agent,
+            live_sessions,
+            connection,
+            unit,
+        }
+    }
+
+    impl Fixture {
+        pub fn updates(&self) -> Vec<Update> {
+            self.recorder.0.lock().unwrap().clone()
+        }
+        pub fn live(&self) -> Vec<(IpAddr, Asn)> {
+            let mut v: Vec<_> =
+                self.live_sessions.lock().unwrap().keys().copied().collect();
+            v.sort();
+            v
+        }
+        /// has `handle_connection` (and with it `Processor::process`)
+        /// returned?
+        pub fn connection_finished(&self) -> bool {
+            self.connection.is_finished()
+        }
+        pub fn unit_finished(&self) -> bool {
+            self.unit.is_finished()
+        }
+        pub async fn terminate(&self) {
+            self.agent.terminate().await;
         }
     }
 }
